@@ -198,6 +198,15 @@ def replySites : List (String × String × String) := [
   ("SimpleJSONRPCRequestHandler.do_POST", "Fault", "server"),
   ("validate_request", "Fault", "server")]
 
+/-- "The server's configuration" of the sites tagged `server` above — the address `serveEntry` is given — is the object the
+    caller handed to the CONSTRUCTOR of the server class: every class of `SimpleJSONRPCServer.py` whose constructor takes a
+    configuration binds it to `self.json_config` (the attribute those sites read), in its own body or through the constructor
+    of the base class it forwards it to (`Generated.configSinks`, restricted to that module; companion theorem in C13Gen).
+    A class that drops it on the way serves on `config.DEFAULT`, whatever version it was built with. -/
+def serverConfigSinks : List (String × String) := [
+  ("CGIJSONRPCRequestHandler", "json_config"), ("PooledJSONRPCServer", "json_config"),
+  ("SimpleJSONRPCDispatcher", "json_config"), ("SimpleJSONRPCServer", "json_config")]
+
 /-- The form (1.0 or 2.0 envelope) is decided by the version of the per-request configuration. -/
 def formOf (v : CfgView) : Nat := if v.version ≥ 20 then 20 else 10
 
